@@ -64,11 +64,15 @@ GROUPS = [
          root_cause="Inside ( ) [ ] { } in math the flow stylist puts a blank between two adjacent comments and renders a line "
                     "feed in the body with a soft line, so between two atoms whitespace appears where there was none, or a line "
                     "feed becomes a blank when the group fits."),
-    dict(group="G08-term-item-comment-indent",
-         title="a line comment directly after a term item's colon is indented by unit + 1",
-         call_site="crates/typstyle-core/src/pretty/markup.rs convert_list_item_like (flow stylist blank after the hard line)",
-         root_cause="After '/ term:' followed by a line feed and a comment the flow stylist still emits its separating blank, so "
-                    "the comment line is indented by unit + 1. Pinned by the term-indent snapshots."),
+    dict(group="G08-flow-line-comment-indent",
+         title="a line comment on its own line after a flow-item hard break is indented by unit + 1",
+         call_site="crates/typstyle-core/src/pretty/layout/flow.rs FlowStylist::push_comment (at_line_start is reset by every "
+                   "push_doc, also by the hard line a producer emits) — term items (markup.rs), math delimiters and math "
+                   "arguments (math.rs, func_call.rs)",
+         root_cause="After a hard line break that a flow-item PRODUCER emitted (not the driver's own deferred break) the stylist "
+                    "does not know it is at a line start, forces its separating blank before a line comment, and the comment "
+                    "line is indented by unit + 1: '/ term:⏎// c', '$ (⏎ a + b⏎// c⏎) $', 'mat(⏎ 1, 2⏎// c⏎)'. The term-item "
+                    "case is pinned by the term-indent snapshots."),
     dict(group="G09-range-formatting-context",
          title="range formatting infers mode / indentation from too little context",
          call_site="crates/typstyle-core/src/partial.rs format_source_range / get_node_cover_range_impl",
@@ -81,6 +85,12 @@ GROUPS = [
          call_site="crates/typstyle-core/src/pretty/comment.rs align_multiline / markup.rs",
          root_cause="A list marker written after a (multi-line) block comment on the same line gets a new column when the comment "
                     "is re-aligned; the nesting Typst derives from that column changes."),
+    dict(group="G11-content-edge-whitespace-observable",
+         title="edge whitespace of a content block changes and is observable through repr",
+         call_site="crates/typstyle-core/src/pretty/markup.rs convert_markup_impl (boundaries through comments)",
+         root_cause="Whitespace at the edges of a content block is layout for C08, but '[ a /* c */]' printed as "
+                    "'[⏎ a /* c */⏎]' (or a blank added after '[' before a comment) changes the content value (a trailing / "
+                    "leading space element), which is visible when the value is shown with repr, e.g. as a dictionary value."),
     dict(group="G90-other-nonconvergence",
          title="other inputs that need two runs to reach a fixed point",
          call_site="several (see examples)",
@@ -119,10 +129,14 @@ def classify(prop, v, text):
         return "G01-strip-edits-content"
     if prop == "C13":
         return "G09-range-formatting-context"
+    if prop == "C02":
+        return "G11-content-edge-whitespace-observable"
+    if prop == "C12" and (seed.startswith("m-") or seed.startswith("cm-math") or seed == "cm-markup-ml") and not off:
+        return "G08-flow-line-comment-indent"
     if seed in ("m-tr-lb", "mk-lb") or "\\\n" in t and prop in ("C04", "C09") and seed.startswith("m-"):
         return "G05-backslash-glue"
     if prop == "C12" and (v["id"].startswith("fix:unit/markup/term-indent") or seed == "mk-term" and not off):
-        return "G08-term-item-comment-indent"
+        return "G08-flow-line-comment-indent"
     if off and prop in ("C01", "C03", "C07", "C08", "C12", "C06"):
         return "G03-off-region-keeps-source-indentation"
     if seed in ("clos-body-asg", "show-fn", "clos-body-if", "clos-body-blk") and prop in ("C01", "C04", "C06"):
